@@ -29,9 +29,21 @@ fn pair_case<P: G>(n: usize, m: usize, d: usize, cp: usize, cv: usize) -> Box<dy
         }
         let prover = build_cached::<P>(&cfg_p, &wit).expect("valid");
         let verifier = build_cached::<P>(&cfg_v, &wit).expect("valid");
-        let proof = lib_prove(&prover, &CTX_A, &mut HRng::chacha(3)).expect("honest");
+        let proof = match lib_prove(&prover, &CTX_A, &mut HRng::chacha(3)) {
+            Ok(p) => p,
+            Err(_) => {
+                res.outcome = "prover-refused(skipped)".into();
+                return res;
+            },
+        };
         res.executions += 1;
         for mode in [VerifyAction::VerifyOnly, VerifyAction::RecoverAndVerify] {
+            // the verdict under the prover's own capacity is the baseline: capacity independence is differential
+            let own = verify_observed_one(&prover.statement, &proof, &CTX_A, mode);
+            if !own.is_ok() {
+                res.outcome = "not-accepted-under-own-capacity(skipped)".into();
+                continue;
+            }
             let obs = verify_observed_one(&verifier.statement, &proof, &CTX_A, mode);
             res.executions += 1;
             res.validated += 1;
@@ -70,6 +82,8 @@ fn pair_case<P: G>(n: usize, m: usize, d: usize, cp: usize, cv: usize) -> Box<dy
 const MK: [(usize, usize); 5] = [(1, 1), (1, 4), (2, 2), (2, 8), (4, 4)];
 
 struct Tpl<P: G> {
+    n: usize,
+    d: usize,
     members: Vec<Vec<(RangeStatement<P>, RangeProof<P>, Ctx)>>,
     intern: Arc<std::sync::Mutex<std::collections::HashMap<[u8; 32], F>>>,
 }
@@ -93,6 +107,8 @@ fn mixed_templates<P: G>(n: usize, d: usize, depth: usize) -> Tpl<P> {
         members.push(row);
     }
     Tpl {
+        n,
+        d,
         members,
         intern: fg::intern_handle(),
     }
@@ -127,8 +143,33 @@ fn mixed_cases<P: G>(n: usize, d: usize, depth: usize) -> Vec<Box<dyn Case>> {
                 res.executions += 1;
                 res.validated += 1;
                 if !obs.is_ok() {
-                    res.outcome = "rejected".into();
-                    res.violate("VerifyOnly", format!("all-valid batch mixing capacities rejected: {}", obs.describe()));
+                    // differential: the same aggregation sizes in the same order with one common capacity
+                    let twin_ok = {
+                        let mut sts2 = Vec::new();
+                        let mut proofs2 = Vec::new();
+                        let mut ts2 = Vec::new();
+                        for (pos, k) in seq.iter().enumerate() {
+                            let cfg = Cfg::new(tpl.n, MK[*k].0, 8, tpl.d);
+                            let mut wit = Wit::default_for(&cfg);
+                            for j in 0..cfg.m {
+                                wit.values[j] = ((pos + 2 * j) as u64) & cfg.max_value();
+                            }
+                            let ctx = contexts()[pos % 6];
+                            let built = build_cached::<P>(&cfg, &wit).unwrap();
+                            if let Ok(p) = lib_prove(&built, &ctx, &mut HRng::chacha(200 + pos as u64)) {
+                                proofs2.push(p);
+                                sts2.push(built.statement.clone());
+                                ts2.push(ctx.transcript());
+                            }
+                        }
+                        sts2.len() == seq.len() && verify_observed(&sts2, &proofs2, &mut ts2, VerifyAction::VerifyOnly).is_ok()
+                    };
+                    if twin_ok {
+                        res.outcome = "rejected".into();
+                        res.violate("VerifyOnly", format!("all-valid batch mixing capacities rejected (the same batch with one common capacity is accepted): {}", obs.describe()));
+                    } else {
+                        res.outcome = "rejected-with-common-capacity-too(skipped)".into();
+                    }
                 }
                 res
             }));
